@@ -32,6 +32,22 @@ def run(ctx):
     from .. import serdepos
     serdepos.check(ctx, "R6")
     # ---- R1 ---------------------------------------------------------------
+    # words <-> hex text: both directions go through the same byte pair (bytes_from_word / word_from_bytes) and the hex crate
+    wf = prog.fn("essential_types::convert::words_from_hex_str")
+    hf = prog.fn("essential_types::convert::hex_str_from_words")
+    if ctx.anchor("R1", "fns words_from_hex_str / hex_str_from_words", wf and hf):
+        ctx.saw(wf)
+        ctx.saw(hf)
+        rows = sorted((v, at) for _, v, at in M.return_table(prog, wf))
+        want = sorted([("<propagate error>", ["err(hex::decode(str))"]),
+                       ("Result::Ok{std::iter::Iterator::collect(std::iter::Iterator::map(slice::chunks_exact(hex::decode(str)?, 8), {closure#0}))}", ["ok(hex::decode(str))"])])
+        cl = [M.render(prog.prov(c).of_local(0)) for c in prog.closures_of(wf)]
+        ok = rows == want and len(cl) == 1 and re.match(r"^essential_types::convert::word_from_bytes\(Result::expect\(<T as std::convert::TryInto<U>>::try_into\(chunk\), '.*'\)\)$", cl[0]) is not None
+        ctx.ob("R1", "words_from_hex_str=word_from_bytes-of-each-8-byte-chunk-of-hex::decode", ok, "%s:%d" % (wf.file, wf.line), "returns %s; per chunk %s" % ([v[:80] for v, _ in rows], cl), wf)
+        rows = [(v, at) for _, v, at in M.return_table(prog, hf)]
+        cl = [M.render(prog.prov(c).of_local(0)) for c in prog.closures_of(hf)]
+        ok = rows == [("hex::encode(std::iter::Iterator::collect(std::iter::Iterator::flat_map(slice::iter(words), {closure#0})))", [])] and cl == ["essential_types::convert::bytes_from_word(word)"]
+        ctx.ob("R1", "hex_str_from_words=hex::encode-of-bytes_from_word-of-each-word", ok, "%s:%d" % (hf.file, hf.line), "returns %s; per word %s" % ([v[:80] for v, _ in rows], cl), hf)
     for fn, callee in [("bytes_from_word", "std::num::<impl i64>::to_be_bytes"), ("word_from_bytes", "std::num::<impl i64>::from_be_bytes")]:
         f = prog.fn(CV + fn)
         if ctx.anchor("R1", "fn " + fn, f):
